@@ -268,6 +268,11 @@ def run_case(case):
             v("wrong-exception", f"on={fn},multi", f"RE(...) raised {rec['exc']!r}, callbacks raised {[repr(e) for _i, _n, _u, e in raised]}")
         if rec["state_after"] != "idle":
             v("not-idle", f"on={fn}", f"state {rec['state_after']} after the call")
+        if (fn, fu) not in pos:
+            # the raiser was called before the first subscriber: already an invocation-order violation
+            v("raised-before-first-subscriber", f"on={fn}", f"callback {fi} raised on a {fn} the first subscriber (subscribed earlier) never received")
+            info["digest"] = _hash((kinds, [(j, n) for j, n, _u in sess.inv], rec["outcome"], "early"))
+            return out, info
         p0 = pos[(fn, fu)]
         later_starts = [i for i, (n, _) in enumerate(keys) if n == "start" and i > p0]
         if later_starts:
